@@ -11,8 +11,17 @@
 \*    "rosen" r_1 = c_1 - x_1, r_i = 10 a_i (x_i - x_{i-1}^2)   monitor clauses only           (n >= 2)
 \* The recorded solve of every published problem is validated against LeastSquares.tla (trace validation);
 \* the returned point of the linear families is compared with ev.opt.
+\* Position relative to the finite-difference step.  jacobian_fd perturbs coordinate i by the RELATIVE step
+\*    h(x) = eps * max(1, |x|),   eps = 2^-26,
+\* far below the rational lattice, so it is a symbolic unit here (rendered by the harness):
+\*    box   <<lo, hi, w>> : w = <<0, 1>> an ordinary box [lo, hi];  otherwise the NARROW box [lo, lo + w h(lo)]
+\*    start <<at, k>>     : at = "abs": the rational k;  "lo": lo + k h(lo);  "hi": hi - k h(hi);
+\*                          "mid": (lo + hi)/2 + k h(mid)                  (k in steps, inward for lo / hi)
+\* so that every combination of |x| in {< 1, 1, > 1, large} with distance {0, < 1, = 1, > 1 steps} to either bound,
+\* and boxes only 1.5 - 3 steps wide (still WIDER than the step, the precondition of the property), are problems of
+\* the lattice.  head.api = "jacobian_fd" asks for one direct call of jacobian_fd at the start point.
 EXTENDS Integers, Sequences, FiniteSets, TLC
-CONSTANTS MinN, MaxN, Families, Modes, Jacs, MaxIters, Boxes, Starts, Targets, Slopes, Scales, Shears
+CONSTANTS MinN, MaxN, Apis, Families, Modes, Jacs, MaxIters, Boxes, Starts, Targets, Slopes, Scales, Shears
 
 Num(r) == r[1]
 Den(r) == r[2]
@@ -24,8 +33,8 @@ RDist(a, b) == <<Abs(Num(a) * Den(b) - Num(b) * Den(a)), Den(a) * Den(b)>>      
 One == <<1, 1>>
 
 VARIABLES stage,   \* "head" | "coords" | "done"
-          head,    \* [fam, n, mode, jac, maxit, t]
-          coords,  \* sequence of [lo, hi, x0, c, a, s]
+          head,    \* [api, fam, n, mode, jac, maxit, t]
+          coords,  \* sequence of [lo, hi, w, x0, c, a, s]
           part,    \* the coordinate being built: <<box, x0, c>> so far
           ev
 vars == <<stage, head, coords, part, ev>>
@@ -33,13 +42,23 @@ vars == <<stage, head, coords, part, ev>>
 Init == /\ stage = "head" /\ head = [fam |-> "none"] /\ coords = << >> /\ part = << >> /\ ev = [op |-> "init"]
 
 FamOK(f, n) == (f = "shear" => n = 2) /\ (f = "rosen" => n >= 2)
-PickHead(f, n, mode, jac, mi, t) ==
+PickHead(api, f, n, mode, jac, mi, t) ==
   /\ stage = "head" /\ FamOK(f, n)
   /\ (f # "shear" => t = <<0, 1>>)
-  /\ head' = [fam |-> f, n |-> n, mode |-> mode, jac |-> jac, maxit |-> mi, t |-> t]
+  /\ (api = "jacobian_fd" => mode = "none" /\ jac = "fd" /\ \A m2 \in MaxIters : mi <= m2)   \* one representative
+  /\ head' = [api |-> api, fam |-> f, n |-> n, mode |-> mode, jac |-> jac, maxit |-> mi, t |-> t]
   /\ stage' = "coords"
   /\ UNCHANGED <<coords, part, ev>>
 
+Zero == <<0, 1>>
+Narrow(b) == b[3] # Zero
+RAbsLeq(a, b) == (IF Num(a) < 0 THEN 0 - Num(a) ELSE Num(a)) * Den(b) <= Num(b) * Den(a)     \* |a| <= b, b >= 0
+Half(r) == <<Num(r), 2 * Den(r)>>
+\* is the start inside the box?  (decidable symbolically: macro widths are >> steps)
+StartInside(b, x0) ==
+  CASE x0[1] = "abs" -> ~Narrow(b) /\ RLeq(b[1], x0[2]) /\ RLeq(x0[2], b[2])
+    [] x0[1] \in {"lo", "hi"} -> RLeq(Zero, x0[2]) /\ (Narrow(b) => RLeq(x0[2], b[3]))
+    [] x0[1] = "mid" -> (Narrow(b) => RAbsLeq(x0[2], Half(b[3])))
 \* scale of a coordinate: only where x_scale uses it; a scalar x_scale is the first coordinate's
 ScaleOK(s) == IF head.mode = "vector" THEN TRUE
               ELSE IF head.mode = "scalar" THEN (IF coords = << >> THEN TRUE ELSE s = coords[1].s)
@@ -47,11 +66,13 @@ ScaleOK(s) == IF head.mode = "vector" THEN TRUE
 \* one coordinate = four small choices (keeps the branching of every step small)
 PickBox(b) ==
   /\ stage = "coords" /\ Len(coords) < head.n /\ part = << >>
-  /\ RLess(b[1], b[2])
+  /\ (IF Narrow(b) THEN RLess(One, b[3]) ELSE RLess(b[1], b[2]))    \* wider than one finite-difference step
+  /\ (head.fam = "shear" => ~Narrow(b))
   /\ part' = <<b>>
   /\ UNCHANGED <<stage, head, coords, ev>>
 PickStart(x0) ==
   /\ stage = "coords" /\ Len(part) = 1
+  /\ (head.api = "jacobian_fd" => StartInside(part[1], x0))      \* jacobian_fd is called at a feasible point
   /\ part' = Append(part, x0)
   /\ UNCHANGED <<stage, head, coords, ev>>
 PickTarget(c) ==
@@ -62,12 +83,13 @@ PickTarget(c) ==
 PickSlope(a, s) ==
   /\ stage = "coords" /\ Len(part) = 3
   /\ ScaleOK(s)
-  /\ coords' = Append(coords, [lo |-> part[1][1], hi |-> part[1][2], x0 |-> part[2], c |-> part[3], a |-> a, s |-> s])
+  /\ coords' = Append(coords, [lo |-> part[1][1], hi |-> part[1][2], w |-> part[1][3], x0 |-> part[2], c |-> part[3],
+                                a |-> a, s |-> s])
   /\ part' = << >>
   /\ UNCHANGED <<stage, head, ev>>
 
 ScaleChoices == IF stage = "coords" THEN (IF head.mode \in {"scalar", "vector"} THEN Scales ELSE {One}) ELSE {}
-HasOpt == head.fam \in {"lin", "shear"}
+HasOpt == head.fam \in {"lin", "shear"} /\ head.api = "least_squares" /\ \A i \in 1..Len(coords) : coords[i].w = Zero
 Opt == [i \in 1..Len(coords) |-> RClip(coords[i].c, coords[i].lo, coords[i].hi)]
 Finish ==
   /\ stage = "coords" /\ Len(coords) = head.n /\ part = << >>
@@ -75,8 +97,8 @@ Finish ==
   /\ ev' = [op |-> "problem", head |-> head, coords |-> coords, hasopt |-> HasOpt, opt |-> Opt]
   /\ UNCHANGED <<head, coords, part>>
 
-Next == \/ \E f \in Families, n \in MinN..MaxN, mode \in Modes, jac \in Jacs, mi \in MaxIters, t \in Shears :
-             PickHead(f, n, mode, jac, mi, t)
+Next == \/ \E api \in Apis, f \in Families, n \in MinN..MaxN, mode \in Modes, jac \in Jacs, mi \in MaxIters, t \in Shears :
+             PickHead(api, f, n, mode, jac, mi, t)
         \/ \E b \in Boxes : PickBox(b)
         \/ \E x0 \in Starts : PickStart(x0)
         \/ \E c \in Targets : PickTarget(c)
@@ -88,14 +110,19 @@ Spec == Init /\ [][Next]_vars
 TypeOK == stage \in {"head", "coords", "done"} /\ (stage # "head" => Len(coords) <= head.n)
 Published == stage = "done"
 \* the published optimum is feasible ...
-OptFeasible == Published => \A i \in 1..Len(coords) : RLeq(coords[i].lo, ev.opt[i]) /\ RLeq(ev.opt[i], coords[i].hi)
+OptFeasible == (Published /\ ev.hasopt) => \A i \in 1..Len(coords) : RLeq(coords[i].lo, ev.opt[i]) /\ RLeq(ev.opt[i], coords[i].hi)
 \* ... and no feasible lattice value of any coordinate is closer to the target (separable cost: coordinate-wise)
-Cands == Starts \cup Targets \cup {b[1] : b \in Boxes} \cup {b[2] : b \in Boxes}
+Cands == {x0[2] : x0 \in {y \in Starts : y[1] = "abs"}} \cup Targets \cup {b[1] : b \in Boxes} \cup {b[2] : b \in Boxes}
 OptIsBoundedMin ==
   (Published /\ ev.hasopt) =>
      \A i \in 1..Len(coords) : \A z \in Cands :
         (RLeq(coords[i].lo, z) /\ RLeq(z, coords[i].hi)) =>
             RLeq(RDist(ev.opt[i], coords[i].c), RDist(z, coords[i].c))
+\* the precondition of the property: every box is wider than the finite-difference step
+WiderThanStep == \A i \in 1..Len(coords) : IF coords[i].w = Zero THEN RLess(coords[i].lo, coords[i].hi) ELSE RLess(One, coords[i].w)
+\* a direct jacobian_fd call is made at a feasible point
+FdPointFeasible == (stage # "head" /\ head.api = "jacobian_fd") =>
+                      \A i \in 1..Len(coords) : StartInside(<<coords[i].lo, coords[i].hi, coords[i].w>>, coords[i].x0)
 \* shear problems have their target strictly inside, so the unconstrained minimiser c is the optimum
 ShearOptIsTarget == (Published /\ head.fam = "shear") => \A i \in 1..Len(coords) : ev.opt[i] = coords[i].c
 
@@ -106,17 +133,38 @@ A_Modes    == {"none", "scalar", "vector", "jac"}
 A_Jacs     == {"fd", "user"}
 A_MaxIters == {3, 40}
 One_MaxIters == {40}
-A_Boxes    == {<<<<-1, 1>>, <<1, 1>>>>, <<<<0, 1>>, <<1, 3>>>>, <<<<-5, 3>>, <<7, 10>>>>, <<<<1, 10>>, <<3, 1>>>>,
-               <<<<-2, 1>>, <<-1, 8>>>>}
-A_Starts   == {<<-2, 1>>, <<-1, 2>>, <<0, 1>>, <<1, 3>>, <<1, 1>>, <<3, 1>>, <<7, 10>>}
+Bx(l, h) == <<l, h, Zero>>
+Nw(l, w)  == <<l, l, w>>
+Ab(n, d)  == <<"abs", <<n, d>>>>
+A_Boxes    == {Bx(<<-1, 1>>, <<1, 1>>), Bx(<<0, 1>>, <<1, 3>>), Bx(<<-5, 3>>, <<7, 10>>), Bx(<<1, 10>>, <<3, 1>>),
+               Bx(<<-2, 1>>, <<-1, 8>>)}
+A_Starts   == {Ab(-2, 1), Ab(-1, 2), Ab(0, 1), Ab(1, 3), Ab(1, 1), Ab(3, 1), Ab(7, 10)}
 A_Targets  == {<<-4, 1>>, <<-1, 1>>, <<-1, 3>>, <<1, 10>>, <<1, 5>>, <<2, 3>>, <<5, 1>>}
 A_Slopes   == {<<1, 1>>, <<2, 1>>, <<1, 3>>}
 A_Scales   == {<<1, 10>>, <<3, 1>>, <<7, 1>>, <<3, 10>>}
 A_Shears   == {<<0, 1>>, <<1, 2>>, <<-3, 1>>}
-S_Boxes    == {<<<<-1, 1>>, <<1, 1>>>>, <<<<-5, 3>>, <<7, 10>>>>, <<<<1, 10>>, <<3, 1>>>>}
-S_Starts   == {<<-2, 1>>, <<7, 10>>, <<1, 1>>}
+S_Boxes    == {Bx(<<-1, 1>>, <<1, 1>>), Bx(<<-5, 3>>, <<7, 10>>), Bx(<<1, 10>>, <<3, 1>>)}
+S_Starts   == {Ab(-2, 1), Ab(7, 10), Ab(1, 1)}
 S_Targets  == {<<-4, 1>>, <<-1, 3>>, <<2, 3>>, <<5, 1>>}
 S_Slopes   == {<<1, 1>>, <<1, 3>>}
 S_Scales   == {<<1, 10>>, <<7, 1>>}
+\* the finite-difference dimension: |bound| in {< 1, 1, > 1, large} x distance {0, 1/2, 1, 2 steps} x both bounds,
+\* and boxes 1.5 - 3 steps wide
+N_Boxes    == {Bx(<<1, 10>>, <<7, 10>>), Bx(<<-1, 1>>, <<1, 1>>), Bx(<<5, 2>>, <<10, 1>>), Bx(<<-10, 1>>, <<-5, 2>>),
+               Bx(<<250, 1>>, <<1000, 1>>), Bx(<<-1000, 1>>, <<-250, 1>>),
+               Nw(<<10, 1>>, <<3, 2>>), Nw(<<-1000, 1>>, <<3, 1>>), Nw(<<1, 3>>, <<3, 2>>), Nw(<<250, 1>>, <<5, 2>>)}
+N_Starts   == {<<"lo", <<0, 1>>>>, <<"lo", <<1, 2>>>>, <<"lo", <<1, 1>>>>, <<"lo", <<2, 1>>>>,
+               <<"hi", <<0, 1>>>>, <<"hi", <<1, 2>>>>, <<"hi", <<1, 1>>>>, <<"hi", <<2, 1>>>>,
+               <<"mid", <<1, 8>>>>, <<"mid", <<-1, 8>>>>}
+N_Targets  == {<<-4, 1>>, <<2000, 1>>}
+N_Modes    == {"none", "vector"}
+N_Jacs     == {"fd"}
+N_MaxIters == {3}
+AN_Boxes   == A_Boxes \cup N_Boxes
+AN_Starts  == A_Starts \cup N_Starts
+AN_Targets == A_Targets \cup N_Targets
+OnlyLS     == {"least_squares"}
+BothApis   == {"least_squares", "jacobian_fd"}
+One_Slopes == {<<1, 1>>}
 NoShear    == {<<0, 1>>}
 =============================================================================
